@@ -78,7 +78,8 @@ Section Case.
     | Ok m, Ok m0, Ok s =>
         if negb (same_data m0 s) then 2      (* contradicts C01_corrected_refines_spec *)
         else if same_all impl m && same_data m s then 0   (* common case, avoids the extra model runs *)
-        else verdict (same_all impl m) (same_data m s) (same_data impl s) (exercised same_data m)
+        else verdict (same_all impl m) (same_data m s) (same_data impl s)
+                     (if same_data m s then 0 else exercised same_data m)
     | _, _, _ => 9
     end.
 
@@ -100,10 +101,13 @@ Section Case.
           let same a b := same_data a b && paths_same (rs_errors a) (rs_errors b) in
           (* deviations 1-3 (directive defaults, union conditions, non-finite floats) change
              values independently of failures: they are C01's subject, not C03's *)
+          if errs_ok m s then verdict (same_all impl m) true (errs_ok impl s) 0
+          else
           match exercised_in [4; 5; 6; 7] same m with
           | 0 => if same_all impl m then
                    (if N.eqb (exercised_in [1; 2; 3] same m) 0 then verdict true false false 8 else 0)
-                 else verdict false false (errs_ok impl s) 8
+                 else if N.eqb (exercised_in [1; 2; 3] same m) 0 then verdict false false (errs_ok impl s) 8
+                 else verdict false false (errs_ok impl s) 0   (* model differs from the spec only by 1-3: judge the implementation on its own *)
           | k => verdict (same_all impl m) false (errs_ok impl s) k
           end
     | _, _, _ => 9
